@@ -14,6 +14,12 @@ def main():
         print('zeep  :', native.build_zeep())
         print('driver:', native.build_driver())
         print('mir   :', native.dump_mir())
+        import harness, gencode
+        ctx = harness.context()
+        b, work, text = gencode.generate_and_dump(os.path.join(VERIF, 'smi/corpus/facets2.xsd'), ctx)
+        fm = gencode.FixtureModel(os.path.join(VERIF, 'smi/corpus/facets2.xsd'))
+        st = gencode.generated_structs(text)
+        print('generated-code driver:', gencode.native_results(work, 'Outer', st, [gencode.Builder(fm, st).inst('Outer', {})]))
     except Exception as e:
         print('native warm-up failed:', str(e)[-1500:])
         rc = 1
